@@ -87,5 +87,5 @@ RuleSteps == {A(1, 0), A(1, 1), A(1, 253), A(1, 254), A(0, 4), A(3, 16), A(3, 17
 DeepInits == {I(1, TRUE), I(12, TRUE)}
 DeepSteps == {A(1, 2), A(2, 5), A(3, 17), A(80, 0), A(79, 3), A(4, 4), A(4, 5),
               [op |-> "u32", t |-> 5, v |-> <<0, 0, 0, 7>>]}
-ThorSteps == DeepSteps \cup {A(26, 5), A(97, 2), A(1, 1), [op |-> "port", t |-> 5, fam |-> 4, port |-> 1812]}
+ThorSteps == DeepSteps \cup {A(26, 5), A(97, 2)}
 =============================================================================
